@@ -194,10 +194,13 @@ func (m *Model) opCases() *opCaseResult {
 		kindT[kind], valIdx[kind] = nt, fieldIdx(nt, "Value")
 	}
 	L, R := iSym{name: "L"}, iSym{name: "R"}
+	var allEvents [][]string // the operand evaluations of every path of the last case evaluated
 	evalCase := func(sym string, lk, rk string) ([]symPath, []string, bool) {
 		var events []string
+		allEvents = nil
 		paths, complete := enumSymPaths(func(branch func(iSym, *ssa.If) (bool, bool)) (any, bool, string) {
 			events = nil
+			defer func() { allEvents = append(allEvents, append([]string{}, events...)) }()
 			lnode, rnode := iObj{"left operand"}, iObj{"right operand"}
 			node := &iStruct{typ: infixT, fields: map[int]any{fOp: constant.MakeString(sym), fL: lnode, fR: rnode}}
 			ip := &Interp{m: m, useGlobals: true, branch: branch}
@@ -259,6 +262,20 @@ func (m *Model) opCases() *opCaseResult {
 			r.cases++
 			key := kind + " " + sym
 			paths, events, complete := evalCase(sym, kind, kind)
+			// whatever the payloads are, both operands are evaluated, the left one first, once each: on every path that
+			// could be followed to its end — an operand that is not evaluated cannot fail
+			for i, ev := range allEvents {
+				if i < len(paths) && paths[i].stuck == "" && (len(ev) != 2 || ev[0] != "left" || ev[1] != "right") && r.bad[key] == "" {
+					when := ""
+					for _, ch := range paths[i].choices {
+						when += fmt.Sprintf(" when `%s` is %v", ch.cond, ch.taken)
+					}
+					r.bad[key] = fmt.Sprintf("the operands are evaluated as %v%s, expected the left one, then the right one, once each (L = left payload, R = right payload): an operand that is not evaluated cannot fail — `0 * missing`, `0 / 0` render a value instead of an error", ev, when)
+				}
+			}
+			if r.bad[key] != "" {
+				continue
+			}
 			if !complete {
 				r.why = key + ": too many branches on the payloads"
 				return r
@@ -318,31 +335,36 @@ func (m *Model) opCases() *opCaseResult {
 			zeroKey, zeroPol, _ := normCmp(iSym{op: token.EQL, x: R, y: constant.MakeInt64(0)}, total)
 			sawZeroSide := false
 			for _, p := range paths {
-				zeroSide := false
-				switch {
-				case len(p.choices) == 0:
-				case len(p.choices) == 1 && needsDivisorTest:
-					k, pol, ok := normCmp(p.choices[0].cond, total)
-					if !ok || k != zeroKey {
-						r.bad[key] = fmt.Sprintf("the result depends on `%s`; only the test of the divisor against zero is expected", p.choices[0].cond)
+				// the choices made on this path: the divisor test (integer / and %), and possibly tests of the payloads that
+				// turn out not to matter — then the path's result is still the expected one
+				zeroSide, extra := false, ""
+				for _, ch := range p.choices {
+					k, pol, ok := normCmp(ch.cond, total)
+					if needsDivisorTest && ok && k == zeroKey {
+						if (ch.taken == pol) == zeroPol {
+							zeroSide = true
+						}
+						continue
 					}
-					zeroSide = (p.choices[0].taken == pol) == zeroPol
-				default:
-					r.why = fmt.Sprintf("%s: unexpected branch on the payloads (%s)", key, p.choices[0].cond)
-					return r
-				}
-				if r.bad[key] != "" {
-					break
+					extra = fmt.Sprintf("%s", ch.cond)
 				}
 				if zeroSide {
 					sawZeroSide = true
 					if !p.known || !isErr(p.res) {
+						if extra != "" {
+							r.why = fmt.Sprintf("%s: the result depends on a test of the payloads (%s)", key, extra)
+							return r
+						}
 						r.bad[key] = "with a zero divisor the result is not an error object"
 					}
 					continue
 				}
 				o, isO := p.res.(*iStruct)
 				if !p.known || !isO || o.typ != kindT[kind] {
+					if extra != "" {
+						r.why = fmt.Sprintf("%s: the result depends on a test of the payloads (%s)", key, extra)
+						return r
+					}
 					r.bad[key] = fmt.Sprintf("the result is not an object of kind %s", kind)
 					break
 				}
@@ -352,6 +374,10 @@ func (m *Model) opCases() *opCaseResult {
 					okVal = true // commutative on numbers
 				}
 				if !okVal {
+					if extra != "" {
+						r.why = fmt.Sprintf("%s: the result depends on a test of the payloads (%s)", key, extra)
+						return r
+					}
 					r.bad[key] = fmt.Sprintf("the result's payload is `%v`, expected `%s` (L = left payload, R = right payload)", symStr(o.fields[valIdx[kind]]), want)
 					break
 				}
